@@ -11,7 +11,7 @@
 (* to their values.  Short forms (PUBACK of remaining length 2 or 3,       *)
 (* DISCONNECT of length 0 or 1, ...) are packets whose optional trailing   *)
 (* fields are absent from DOMAIN v; property sections are sequences of     *)
-(* [id, val] in wire order, so order, explicit zero values and repetition  *)
+(* <<id, val>> in wire order, so order, explicit zero values and repetition  *)
 (* are all part of the abstract packet and Encode is a function.           *)
 (***************************************************************************)
 EXTENDS Bytes, FiniteSets, TLC
@@ -123,7 +123,7 @@ EncVal(kind, v) ==
   ELSE Str(v[1]) \o Str(v[2])                                    \* pair
 
 EncPropBody(props) == Concat([k \in 1..Len(props) |->
-                          <<props[k].id>> \o EncVal(PropKind(props[k].id), props[k].val)])
+                          <<props[k][1]>> \o EncVal(PropKind(props[k][1]), props[k][2])])
 EncProps(props) == LET b == EncPropBody(props) IN VBI(Len(b)) \o b
 
 EncField(k, v) ==
@@ -172,7 +172,7 @@ PropLoop(f, fe, lim, ctx, i, seen, out, fm) ==
       IF ~r.ok THEN r
       ELSE IF PropKind(id) = "bool" /\ r.val > 1 THEN Fail("bool", "boolean property not 0 or 1", i + 1)
       ELSE PropLoop(f, fe, lim, ctx, r.next, seen \cup {id},
-                    Append(out, [id |-> id, val |-> r.val]), fm \o FM("id", i, i, FALSE) \o r.fm)
+                    Append(out, <<id, r.val>>), fm \o FM("id", i, i, FALSE) \o r.fm)
 
 RdProps(f, i, fe, ctx) ==
   LET pl == DecVBI(f, i, fe, fe, FALSE) IN
@@ -256,12 +256,11 @@ FrameLen(b) == LET r == DecVBI(b, 2, Len(b), Len(b), FALSE) IN r.next + r.val - 
 (*            semantic rules on top of the structure (Appendix C)          *)
 (***************************************************************************)
 SeqRange(s) == {s[k] : k \in 1..Len(s)}
-HasProp(props, id) == \E k \in 1..Len(props) : props[k].id = id
-PropVal(props, id) == props[CHOOSE k \in 1..Len(props) : props[k].id = id].val
-PropsOf(props, id) == LET idx == {k \in 1..Len(props) : props[k].id = id}
-                          RECURSIVE Pick(_)
+HasProp(props, id) == \E k \in 1..Len(props) : props[k][1] = id
+PropVal(props, id) == props[CHOOSE k \in 1..Len(props) : props[k][1] = id][2]
+PropsOf(props, id) == LET                           RECURSIVE Pick(_)
                           Pick(k) == IF k > Len(props) THEN <<>>
-                                     ELSE IF props[k].id = id THEN <<props[k].val>> \o Pick(k + 1)
+                                     ELSE IF props[k][1] = id THEN <<props[k][2]>> \o Pick(k + 1)
                                      ELSE Pick(k + 1)
                       IN Pick(1)
 
@@ -269,7 +268,7 @@ IsZero(kind, v) == IF kind = "u32" THEN v = <<0, 0>> ELSE v = 0
 
 PropsSemOK(props) ==
   \A k \in 1..Len(props) :
-     LET id == props[k].id  val == props[k].val  kind == PropKind(id) IN
+     LET id == props[k][1]  val == props[k][2]  kind == PropKind(id) IN
      /\ (id \in ZeroForbidden => ~IsZero(kind, val))
      /\ (kind = "str" => TextOK(val))
      /\ (kind = "pair" => TextOK(val[1]) /\ TextOK(val[2]) /\ Len(val[1]) > 0)
@@ -412,9 +411,9 @@ TypeName(t) ==
 (* MC_Wire).                                                               *)
 (***************************************************************************)
 PropsWF(ctx, props) ==
-  /\ \A k \in 1..Len(props) : props[k].id \in Allowed(ctx)
-                              /\ (PropKind(props[k].id) = "bool" => props[k].val \in {0, 1})
-  /\ \A j, k \in 1..Len(props) : j # k /\ props[j].id = props[k].id => Repeatable(ctx, props[j].id)
+  /\ \A k \in 1..Len(props) : props[k][1] \in Allowed(ctx)
+                              /\ (PropKind(props[k][1]) = "bool" => props[k][2] \in {0, 1})
+  /\ \A j, k \in 1..Len(props) : j # k /\ props[j][1] = props[k][1] => Repeatable(ctx, props[j][1])
 
 WFWire(p) ==
   LET L == Layout(p.t)  v == p.v
